@@ -301,7 +301,7 @@ func runC18(pl *plan.Plan, out *plan.Outcome) {
 		}
 	})
 	if res := env.Run(); res != "done" && out.Trouble == "" {
-		out.Trouble = "run ended: " + res
+		env.runEnded(res, out)
 	}
 	out.Nontrivial = true
 	h := fnvNew()
